@@ -19,7 +19,7 @@ CANARIES = [
      'old': "    if 'next' in get_arg_names(render):", 'new': "    if 'next' in get_arg_names(render) and False:"},
 ]
 # BoundRoute.__init__ and make_middleware_chain are shared proofs: C04 owns the one-source-per-name and reserved-name clauses
-OWN = [r'check_middleware', r'make_middleware_chain/ensures\[[01]\]', r'make_middleware_chain/raises', r'BoundRoute\.__init__.*/ensures\[10\]',
+OWN = [r'check_middleware', r'make_middleware_chain/ensures\[[01]\]', r'make_middleware_chain/raises', r'BoundRoute\.__init__.*/ensures\[11\]',
        r'BoundRoute\.__init__.*/raises', r'^C04\.']
 QUICK_CANARIES = 2
 
